@@ -35,7 +35,7 @@ PROPS = {
             "note": "HTTP side and core-conn side here; the websocket side shares harness/internal/track (props of the ws family)",
             "technique": "Lean 4 proof (ownership invariant by induction over op sequences) + differential trace correspondence + tracking allocator"},
         "lean": ["NbioVerif.Properties.C11"], "drivers": ["respdrv"], "harness": ["hresp"],
-        "runs": [dict(RESP_RUN, fields=["n", "err", "tr"])],
+        "runs": [dict(RESP_RUN, fields=["n", "err", "tr", "rd", "cache"])],
         "oracles": ["c11-"],
         "rule": "same stream as C09; distinct by hash of (config, op-kind sequence with conn writes per op, framing); non-trivial iff a conn "
                 "write happened before the final flush (a buffer changed hands or was flushed and reused)",
